@@ -104,6 +104,7 @@ impl<W: Write + io::Seek> ZipWriter<W> {
 //@use zw_finish
 }
 // C17: the padding formula of start_file_aligned lands on a multiple of the alignment
+// @props: C17 -- (x + (a - x % a) % a) % a == 0
 pub proof fn lemma_align(x: int, a: int)
     requires a > 0, x >= 0
     ensures (x + (a - x % a) % a) % a == 0
@@ -130,51 +131,7 @@ impl<W: Write + io::Seek> Write for ZipWriter<W> {
 //@use zw_flush
 }
 // T7x in start_file_aligned / add_symlink: `self.write_all(..)` / `self.write_u16::<LittleEndian>(..)` on the ZipWriter itself.
-// ASSUMED: std's write_all is repeated `write`; the effect below is what ZipWriter::write (proved: zw_write) gives
-// when every call accepts what that contract says it accepts.
-#[verifier::external_body]
-fn shim_zw_write_all<W: Write + io::Seek>(w: &mut ZipWriter<W>, buf: &[u8]) -> (r: io::Result<()>)
-    requires zw_ready(old(w)),
-    ensures
-        zw_wf(final(w)) && (zw_room(final(w)) || zw_faulted(final(w)) || final(w).inner is Closed),
-        final(w).files@.len() == old(w).files@.len(),
-        old(w).files@.len() > 0 ==> entry_identity_kept(old(w).files@.last(), final(w).files@.last()),
-        r is Ok && zw_clean(old(w)) ==> zw_clean(final(w)),
-        forall|i: int| 0 <= i < old(w).files@.len() - 1 ==> final(w).files@[i] == old(w).files@[i],
-        final(w).writing_to_file == old(w).writing_to_file && final(w).writing_to_extra_field == old(w).writing_to_extra_field
-            && final(w).writing_to_central_extra_field_only == old(w).writing_to_central_extra_field_only
-            && final(w).writing_raw == old(w).writing_raw && final(w).comment == old(w).comment,
-        !old(w).writing_to_file || old(w).inner is Closed ==> r is Err,
-        // extra-data mode: everything is collected verbatim, nothing else moves
-        old(w).writing_to_file && old(w).writing_to_extra_field && !(old(w).inner is Closed) ==> r is Ok
-            && final(w).files@.last().extra_field@ == old(w).files@.last().extra_field@ + buf@
-            && final(w).files@.last().data_start == old(w).files@.last().data_start
-            && final(w).files@.last().header_start == old(w).files@.last().header_start
-            && final(w).files@.last().large_file == old(w).files@.last().large_file
-            && final(w).inner == old(w).inner && final(w).stats == old(w).stats,
-        // data mode: entries untouched; on success the whole buffer was accounted
-        !old(w).writing_to_extra_field ==> final(w).files@ == old(w).files@,
-        r is Ok && !old(w).writing_to_extra_field ==> final(w).stats.hasher@ == old(w).stats.hasher@ + buf@
-            && final(w).stats.bytes_written == old(w).stats.bytes_written + buf@.len(),
-{ unimplemented!() }
-#[verifier::external_body]
-fn shim_zw_write_u16<W: Write + io::Seek>(w: &mut ZipWriter<W>, v: u16) -> (r: io::Result<()>)
-    requires zw_ready(old(w)),
-    ensures
-        zw_wf(final(w)) && (zw_room(final(w)) || zw_faulted(final(w)) || final(w).inner is Closed),
-        final(w).files@.len() == old(w).files@.len(),
-        old(w).files@.len() > 0 ==> entry_identity_kept(old(w).files@.last(), final(w).files@.last()),
-        r is Ok && zw_clean(old(w)) ==> zw_clean(final(w)),
-        final(w).writing_to_file == old(w).writing_to_file && final(w).writing_to_extra_field == old(w).writing_to_extra_field
-            && final(w).writing_to_central_extra_field_only == old(w).writing_to_central_extra_field_only
-            && final(w).writing_raw == old(w).writing_raw && final(w).comment == old(w).comment,
-        old(w).writing_to_file && old(w).writing_to_extra_field && !(old(w).inner is Closed) ==> r is Ok
-            && final(w).files@.last().extra_field@ == old(w).files@.last().extra_field@ + le16(v)
-            && final(w).files@.last().data_start == old(w).files@.last().data_start
-            && final(w).files@.last().header_start == old(w).files@.last().header_start
-            && final(w).files@.last().large_file == old(w).files@.last().large_file
-            && final(w).inner == old(w).inner && final(w).stats == old(w).stats,
-{ unimplemented!() }
+//@include common/writer_std_models.rs
 // T7x in start_entry: `zipwriter.write_all(&crypto_header)` on the buffering ZipCryptoWriter.
 // ASSUMED: write_all is repeated write; ZipCryptoWriter::write (proved in U7a/U10) accepts everything at once.
 #[verifier::external_body]
